@@ -230,7 +230,15 @@ func (in *Interp) assertTrue(c *Term, msg string) {
 	for _, n := range in.nondets {
 		want = append(want, n.T)
 	}
-	r, vals := in.s.CheckPC(in.pc, []*Term{in.s.Not(c)}, want)
+	var r CheckResult
+	var vals []string
+	if c.Deg > maxSolverDegree {
+		// an identity of astronomically high degree that does not hold syntactically: the solver would expand
+		// it without bound; it is undecided here (the checks may still falsify it natively with concrete values)
+		r = RUnknown
+	} else {
+		r, vals = in.s.CheckPC(in.pc, []*Term{in.s.Not(c)}, want)
+	}
 	switch r {
 	case RSat:
 		m := map[string]string{}
@@ -401,6 +409,9 @@ func (in *Interp) newError(msg string) Val {
 	obj := in.newObj(&StructV{F: []Val{msg}}, "error")
 	return IfaceV{T: types.NewPointer(es.Type()), V: Ptr{Obj: obj}}
 }
+
+// assertions over real terms of a degree above this bound are not sent to the solver
+const maxSolverDegree = 200
 
 func findStub(in *Interp, fn *ssa.Function) StubFn {
 	pkg := fnPkgPath(fn)
